@@ -164,6 +164,9 @@ def run_item(item):
             viol("rejects-interior-point", "rejects %d interior point(s) (sdf %.3g), e.g. %s params %s" % (
                 len(bad), f[i], allp[i].tolist(), allprm[i].tolist()), {"ast": a, "point": allp[i], "params": allprm[i]})
 
+    # rows on the surface of a triangulated polyhedron have no specified answer (ray casting; it varies with the rest
+    # of the batch); all other rows must agree exactly
+    dec = ~G.mesh_ambiguous(a, vals32, TOL_ON * scale) if G.has_mesh(a) else np.ones(n, dtype=bool)
     # (i) structural, exact
     k = a["k"]
     if k in ("union", "cut", "inter", "prod"):
@@ -171,7 +174,7 @@ def run_item(item):
             la = _truth(call(Bd.build_tp(a["a"])), n)
             lb = _truth(call(Bd.build_tp(a["b"])), n)
             exp = {"union": la | lb, "inter": la & lb, "cut": la & ~lb, "prod": la & lb}[k]
-            bad = np.where(exp != lib)[0]
+            bad = np.where((exp != lib) & dec)[0]
             if len(bad):
                 i = int(bad[0])
                 viol("not-%s-of-operands" % {"union": "or", "inter": "and", "cut": "andnot", "prod": "and"}[k],
@@ -184,7 +187,7 @@ def run_item(item):
     # (iv) row independence: permuted rows and single-theta sub-batches give the same answers
     perm = np.random.RandomState(1).permutation(n)
     lp = _truth(call(D, perm), n)
-    if lp is None or (lp != lib[perm]).any():
+    if lp is None or ((lp != lib[perm]) & dec[perm]).any():
         viol("row-order-dependence", "answers change when the rows of the batch are permuted", {"ast": a})
     start = 0
     for th, blk in zip(tags, blocks):
@@ -192,7 +195,7 @@ def run_item(item):
         start += len(blk)
         if len(thetas) > 1:
             ls = _truth(call(D, idx), len(idx))
-            if ls is None or (ls != lib[idx]).any():
+            if ls is None or ((ls != lib[idx]) & dec[idx]).any():
                 viol("batch-dependence", "answers for parameter row %s change when the other rows are removed" % th, {"ast": a})
                 break
 
